@@ -117,6 +117,31 @@ def _put_table(ctx, rid, f):
         removed = len(lf.called("HashMap::remove"))
         return (pushed, "evicted" if popped == 1 and removed == 1 else "kept" if popped == 0 and removed == 0 else "half:%d/%d" % (popped, removed))
 
+    STORES = ("HashMap::insert", "VacantEntry::insert", "OccupiedEntry::insert", "VacantEntry::insert_entry", "Entry::insert_entry", "Entry::or_insert", "Entry::or_insert_with", "HashMap::try_insert")
+
+    def stored(lf):
+        # the value parameter reaches the map: through one of the inserting calls, or written through a reference
+        # (get_mut / and_modify / OccupiedEntry::get_mut)
+        for b, t in lf.calls:
+            if t[0] == "call" and t[1].endswith(STORES) and any(x == ("param", 3) for a in t[2] for x in leaves(a)):
+                return True
+            if t[0] == "call" and t[1].endswith(("Entry::and_modify", "Entry::or_insert_with", "Option::map", "Option::replace", "mem::replace")) and any(x == ("param", 3) or (x[0] == "agg" and x[1] == "closure") for a in t[2] for x in leaves(a)):
+                return True
+        for w in lf.pe.writes:
+            if any(x == ("param", 3) for x in leaves(w[-1] if isinstance(w[-1], tuple) else ())):
+                return True
+        return False
+    unstored = {}
+    for lf in lvs:
+        if not stored(lf) and not lf.opaque:
+            for e in __import__("inkalint.semtable", fromlist=["completions"]).completions(lf.env, ["present", "absent", "len", "capacity"], domains, None):
+                if e["absent"] == 1 - e["present"] and not (e["present"] and e["len"] > e["capacity"]):
+                    unstored[e["present"]] = lf
+    ctx.ob(rid, "value-stored-on-every-path", not unstored,
+           "" if not unstored else "when the key was %s, put returns without storing the value: a lookup keeps answering the %s" % (
+               "present" if 1 in unstored else "new", "value stored first, not the one stored last" if 1 in unstored else "old state"),
+           ctx.where(f), sample={"leaves": len(lvs)})
+
     def constraint(e):
         if e["absent"] != 1 - e["present"]:
             return False
@@ -142,6 +167,44 @@ def _put_table(ctx, rid, f):
         ctx.lost(rid, "put under a condition the decision table cannot evaluate (%s)" % "; ".join(show(d) for d, cc in u[3].opaque)[:160])
 
 
+def _bound_reads_a_current_length(ctx, rid, f, cfg, ex):
+    """`len > capacity` must be asked of a length that already counts the new key: the map after the insert, or the
+    queue after the push. Asked before (with the strict comparison) a full table does not evict and holds capacity + 1"""
+    def dominated_by(b, suffixes):
+        for x in sorted(cfg.reach):
+            t = f["blocks"][x]["term"]
+            if t["k"] == "call" and (t["callee"].get("key") or "").endswith(suffixes) and x != b and cfg.dominates(x, b):
+                return True
+        return False
+    for b in sorted(cfg.reach):
+        t = f["blocks"][b]["term"]
+        if t["k"] != "switch" or f["blocks"][b]["cleanup"]:
+            continue
+        d = ex.operand(t["discr"])
+        if not (d[0] == "bin" and d[1] in ("Gt", "Lt", "Ge", "Le")):
+            continue
+        l, r = d[2], d[3]
+        if d[1] in ("Lt", "Le"):
+            l, r = r, l         # normalise to  length  >/>=  capacity
+        strict = d[1] in ("Gt", "Lt")
+        if not (r[0] == "f" and r[2] == "capacity"):
+            continue
+        if l[0] == "call" and l[1].endswith("VecDeque::len"):
+            current = dominated_by(b, ("VecDeque::push_back", "VecDeque::push_front"))
+            what = "the queue's length before the key is queued"
+        elif l[0] == "call" and (l[1].endswith("HashMap::len") or l[1] == HTM + "len"):
+            current = dominated_by(b, ("HashMap::insert", "VacantEntry::insert", "HashMap::entry"))
+            what = "the map's length before the insert"
+        else:
+            continue
+        if not current and strict:
+            ctx.ob(rid, "bound-reads-a-length-that-counts-the-new-key", False,
+                   "put tests `%s` on %s: a table that is exactly full does not evict and ends up with capacity + 1 entries (test after the insert / push, or with >=)" % (show(d)[:90], what),
+                   ctx.where(f, t["line"]))
+        elif current and strict:
+            ctx.ob(rid, "bound-reads-a-length-that-counts-the-new-key", True, "", ctx.where(f, t["line"]))
+
+
 def r2_put(ctx):
     rid = "C18.R2"
     ctx.rule(rid, "put: insert(key, value); push_back(key) iff the key was new; `len > capacity` checked on every path after the insert; evicted key = popped list head, removed from the map", floor=6)
@@ -157,6 +220,7 @@ def r2_put(ctx):
                "put removes the oldest key from the map but only looks at the queue's head (front/back/get) instead of popping it: the dead key stays at the head, the next eviction removes nothing (the map grows past its capacity) and a re-inserted key is evicted at once",
                ctx.where(f, peeks[0][2]["line"]))
         return
+    _bound_reads_a_current_length(ctx, rid, f, cfg, ex)
     _put_table(ctx, rid, f)
     if not (len(ins) == 1 and len(push) == 1 and len(pop) == 1 and len(rem) == 1 and len(ln) >= 1):
         ctx.lost(rid, "put: one insert / push_back / pop_front / remove and a len (found %d/%d/%d/%d/%d)" % (len(ins), len(push), len(pop), len(rem), len(ln)))
